@@ -453,6 +453,9 @@ def sliceT : Val → Nat → Nat → Except Err Val
   | .tlist xs, lo, hi => .ok (.tlist ((xs.take hi).drop lo))
   | _, _, _ => .error .type
 
+def seriesOff (r : ImgRec) : Nat := if r.series then 1 else 0
+def frames (r : ImgRec) : Nat := if r.series then r.timeNum else 1
+
 /-- One call: new heap and the address of the returned object. `guard` is the tabulated type guard
 of `__mul__`. -/
 def step (guard : TyTag → Except Err Unit) (h : Heap) : Op → Except Err (Heap × Nat)
@@ -625,8 +628,8 @@ def step (guard : TyTag → Except Err Unit) (h : Heap) : Op → Except Err (Hea
     let (sh, _) ← readArr h1 r.arr
     if r.scalar then throw .assertion
     let C := chanNum r sh
-    let P := spaceNum r sh * (if r.series then r.timeNum else 1)
-    let outShape := sh.take (r.spaceDim + (if r.series then 1 else 0))
+    let P := spaceNum r sh * frames r
+    let outShape := sh.take (r.spaceDim + seriesOff r)
     match chan with
     | some k =>
       -- image.to_trichromatic(..) in place on the copy: image.img rebound to a new array; then image.img[..., k]
